@@ -5,3 +5,4 @@ pub mod index;
 pub mod backend;
 pub mod config;
 pub mod chunker;
+pub mod hotcold;
